@@ -56,7 +56,7 @@ def stmt_text(prog, i, ibody_kinds):
             nn = "%s%d" % (PFX[pk], st["name"][1]) if st["name"] else "ibd"
             return ("subroutine %s()" % nn) if pk == "sub" else ("integer function %s()" % nn)
         if kind == "type":
-            return "type :: " + n
+            return "type :: " + (nm(("g", st["name"][1])) if st["name"][0] == "g" else n)
         if kind == "iface_named":
             return "interface " + n
         if kind == "iface_abstract":
